@@ -31,6 +31,15 @@ func c22(r *Run) {
 			okp, _ := mustPass(entry(sa), isReturn, isInstr(ac[0].Ins))
 			okk = okp
 		}
+		// completion is judged with the window that applies at the new block (rules may change the window over time)
+		outs := returnOutcomes(sa)
+		okW := len(outs) > 0
+		for _, o := range outs {
+			if !(len(o.Vals) == 1 && strings.Contains(term(o.Vals[0]), "getValidityWindow((internal/validitywindow.Block).GetTimestamp(p1)) < ((internal/validitywindow.Block).GetTimestamp(p1) - (internal/validitywindow.Block).GetTimestamp(p0.oldestBlock))")) {
+				okW = false
+			}
+		}
+		r.check(okW, "C22.R4", "Syncer.accept:complete-iff-span-exceeds-window-at-the-new-block", w.rel(sa.Pos()), "", "forward completion is not 'new block's timestamp - oldest block's timestamp > validity window at the new block's timestamp'")
 		r.check(okk, "C22.R4", "Syncer.accept:window-accepts-on-every-path", w.rel(sa.Pos()), "", "a block accepted while syncing can return from Syncer.accept without having been recorded in the validity window: its transactions are invisible to the replay check after the hand-over")
 	}
 	r.rule("C22.R1", "K1", "emit only parsed, hash-linked blocks; lastBlock/expected parent/resume height advance only from emitted blocks", 5)
